@@ -178,6 +178,13 @@ func C03(run *core.Run) {
 				if i%3 == 2 {
 					fs = append(fs, fu[r.Intn(len(fu))])
 				}
+				if i%9 == 4 {
+					// several non-selective filters in one query, one of them limited (ordered-scan path)
+					fs = []abs.Filter{{Limit: abs.OptInt{P: true, V: 1}}, {Until: abs.OptInt{P: true, V: int64(1 + r.Intn(3))}}}
+					if r.Intn(2) == 0 {
+						fs = []abs.Filter{{Since: abs.OptInt{P: true, V: 2}}, {Limit: abs.OptInt{P: true, V: int64(1 + r.Intn(2))}}}
+					}
+				}
 				if i%9 == 8 {
 					// equivalent pair routed differently: {limit:n} (scan) and {kinds: all kinds, limit:n} (index)
 					lim := abs.OptInt{P: true, V: int64(1 + r.Intn(3))}
